@@ -698,3 +698,119 @@ pub fn gen_c14(rng: &mut Rng, d: &mut Dist, idx: u64) -> Vec<String> {
     out.push(format!("OP c fetch_group_offsets {} {} 0", h("grp"), h(&t.name)));
     out
 }
+
+/// C20: arguments mixing loaded / unloaded-but-existing / non-existing topics and in-range / out-of-range / negative
+/// partitions, for every public operation, after histories of full loads, subset loads and resets.
+pub fn gen_c20(rng: &mut Rng, d: &mut Dist, _idx: u64) -> Vec<String> {
+    let mut cl = Cluster::random(rng, 3, true);
+    // make sure there are several topics so that subsets are meaningful
+    let extra = ["e1", "e2"];
+    for e in extra {
+        if cl.topics.len() < 4 && !cl.topics.iter().any(|t| t.name == e) {
+            let np = 1 + rng.below(3) as usize;
+            cl.topics.push(Topic { name: e.to_string(), leaders: (0..np).map(|_| cl.brokers[0].0).collect() });
+        }
+    }
+    let mut out = cl.setup_lines();
+    out.push(format!("OP client_new {}", cl.bootstrap()));
+    let storage = *rng.pick(&["zk", "kafka", "kafka", "none"]);
+    out.push(format!("OP c set storage {}", storage));
+    out.push("OP c set retry_backoff_ms 0".into());
+    out.push("OP c set retry_max 1".into());
+    let pick_tp = |rng: &mut Rng, d: &mut Dist, cl: &Cluster| -> (String, i64) {
+        let t = match rng.below(8) {
+            0 => {
+                bump(d, "topic-nonexistent");
+                "ghost".to_string()
+            }
+            _ => rng.pick(&cl.topics).name.clone(),
+        };
+        let np = cl.topics.iter().find(|x| x.name == t).map(|x| x.leaders.len()).unwrap_or(2) as i64;
+        let p = match rng.below(8) {
+            0 => {
+                bump(d, "partition-out-of-range");
+                np + rng.below(3) as i64
+            }
+            1 => {
+                bump(d, "partition-negative");
+                *rng.pick(&[-1i64, -2, i32::MIN as i64])
+            }
+            _ => rng.range(0, np - 1),
+        };
+        (t, p)
+    };
+    let nops = 4 + rng.below(10);
+    for _ in 0..nops {
+        match rng.below(12) {
+            0 => {
+                bump(d, "hist-load-all");
+                out.push("OP c load_metadata_all".into());
+            }
+            1 => {
+                bump(d, "hist-load-subset");
+                let k = 1 + rng.below(2);
+                let ts: Vec<String> = (0..k).map(|_| if rng.chance(1, 6) { h("ghost") } else { h(&rng.pick(&cl.topics).name) }).collect();
+                out.push(format!("OP c load_metadata {}", ts.join(" ")));
+            }
+            2 => {
+                bump(d, "hist-reset");
+                out.push("OP c reset_metadata".into());
+            }
+            3 => {
+                bump(d, "op-fetch_messages");
+                let mut line = String::from("OP c fetch_messages");
+                for _ in 0..(1 + rng.below(5)) {
+                    let (t, p) = pick_tp(rng, d, &cl);
+                    line.push_str(&format!(" {} {} 0 -1", h(&t), p));
+                }
+                out.push(line);
+            }
+            4 => {
+                bump(d, "op-fetch_offsets");
+                let ts: Vec<String> = (0..(1 + rng.below(3))).map(|_| h(&pick_tp(rng, d, &cl).0)).collect();
+                out.push(format!("OP c fetch_offsets -1 {}", ts.join(" ")));
+            }
+            5 => {
+                bump(d, "op-list_offsets");
+                let ts: Vec<String> = (0..(1 + rng.below(3))).map(|_| h(&pick_tp(rng, d, &cl).0)).collect();
+                out.push(format!("OP c list_offsets -2 {}", ts.join(" ")));
+            }
+            6 => {
+                bump(d, "op-fetch_topic_offsets");
+                out.push(format!("OP c fetch_topic_offsets -1 {}", h(&pick_tp(rng, d, &cl).0)));
+            }
+            7 | 8 => {
+                bump(d, "op-produce");
+                let mut line = format!("OP c produce {} 1 0", rng.pick(&[0i64, 1]));
+                for i in 0..(1 + rng.below(4)) {
+                    let (t, p) = pick_tp(rng, d, &cl);
+                    line.push_str(&format!(" {} {} ~ {:02x}", h(&t), p, i));
+                }
+                out.push(line);
+            }
+            9 => {
+                bump(d, "op-commit_offsets");
+                let mut line = format!("OP c commit_offsets {}", h("grp"));
+                for _ in 0..(1 + rng.below(4)) {
+                    let (t, p) = pick_tp(rng, d, &cl);
+                    line.push_str(&format!(" {} {} 3", h(&t), p));
+                }
+                out.push(line);
+            }
+            10 => {
+                bump(d, "op-fetch_group_offsets");
+                let mut line = format!("OP c fetch_group_offsets {}", h("grp"));
+                for _ in 0..(1 + rng.below(4)) {
+                    let (t, p) = pick_tp(rng, d, &cl);
+                    line.push_str(&format!(" {} {}", h(&t), p));
+                }
+                out.push(line);
+            }
+            _ => {
+                bump(d, "op-fetch_group_topic_offset");
+                out.push(format!("OP c fetch_group_topic_offset {} {}", h("grp"), h(&pick_tp(rng, d, &cl).0)));
+            }
+        }
+    }
+    out
+}
